@@ -53,7 +53,7 @@ def dump_mir():
 class Run:
     def __init__(self, mir, QL, NTHR, KMAX, depth):
         self.cfg = (QL, NTHR, KMAX)
-        self.ex, self.main, self.reader, self.job = mirx.extract(mir, QL, KMAX)
+        self.ex, self.main, self.reader, self.job = mirx.extract(mir, QL, KMAX, NTHR)
         self.M = bmc.Model(self.main, self.reader, self.job, QL, NTHR, KMAX)
         self.D = depth
         self.S = [self.M.state(t) for t in range(depth + 1)]
@@ -119,8 +119,99 @@ class Run:
                     steps=tr, last_state={k: ev(v) for k, v in self.S[upto].items() if k in ("ndeliv", "nerrdeliv", "created", "nfill", "panic", "sawnone", "dup", "badpair", "badorder", "qD_len", "qE_len", "sD", "rD", "sE", "rE", "pc0", "pc1")})
 
 
+def obs_of(prim, role):
+    """observable event of a primitive action (what the user closures of a native run can log), or None"""
+    a = prim[0]
+    if role == "main":
+        if a == "init_d":
+            return "init_d " + prim[1]
+        if a in ("deliver", "deliver_err", "deliver_none"):
+            return a
+    elif role == "reader":
+        if a == "init_r":
+            return "init_r " + prim[1]
+        if a == "fill":
+            return "fill " + prim[1]
+    elif role == "job":
+        if a == "work":
+            return "work"
+    return None
+
+
+def accepts(A, role, seq):
+    """is `seq` the observable projection of a complete path of automaton A (from init to an end)?"""
+    out = {}
+    for s, L, d in A.edges:
+        out.setdefault(s, []).append((L, d))
+    seen = set()
+    stack = [(A.init, 0)]
+    while stack:
+        st, i = stack.pop()
+        if (st, i) in seen:
+            continue
+        seen.add((st, i))
+        if st not in out and i == len(seq):
+            return True
+        for L, d in out.get(st, []):
+            j = i
+            ok = True
+            for prim in L:
+                o = obs_of(prim, role)
+                if o is None:
+                    continue
+                if j < len(seq) and seq[j] == o:
+                    j += 1
+                else:
+                    ok = False
+                    break
+            if ok:
+                stack.append((d, j))
+    return False
+
+
+def validate_translation(run):
+    """runs the real functions natively under a grid of scenarios and checks that every thread's
+    observable event sequence is accepted by the automaton extracted from the MIR"""
+    QL, NTHR, KMAX = run.cfg
+    ok_n, bad = 0, []
+    grid = []
+    for sets in range(0, KMAX + 1):
+        for err in (False, True):
+            grid.append(dict(sets=sets, reader_error=err, reader_init_fails=False, dataset_init_fails_at_call=-1))
+    grid.append(dict(sets=1, reader_error=False, reader_init_fails=True, dataset_init_fails_at_call=-1))
+    for i in range(0, QL + 1):
+        grid.append(dict(sets=1, reader_error=False, reader_init_fails=False, dataset_init_fails_at_call=i))
+    for sc in grid:
+        q = dict(config=dict(queue_len=QL, n_threads=NTHR), trace=dict(scenario={k: str(v) for k, v in sc.items()}, steps=[]), query="validation")
+        f = native_facts(q, attempts=1)
+        if not f or f.get("hung") or f.get("panicked"):
+            bad.append((sc, "native run hung/panicked/unavailable"))
+            continue
+        ev = f["events"]
+        main_seq, reader_seq, jobs = [], [], 0
+        for e in ev:
+            if e.startswith("init_d"):
+                i = int(e.split()[1])
+                main_seq.append("init_d " + ("err" if i == sc["dataset_init_fails_at_call"] else "ok"))
+            elif e.startswith("deliver_") or e.startswith("deliver "):
+                main_seq.append(e.split()[0])
+            elif e == "init_r":
+                reader_seq.append("init_r " + ("err" if sc["reader_init_fails"] else "ok"))
+            elif e.startswith("fill"):
+                reader_seq.append(e)
+            elif e.startswith("work"):
+                jobs += 1
+        good = accepts(run.main, "main", main_seq) and accepts(run.reader, "reader", reader_seq) and (jobs == 0 or accepts(run.job, "job", ["work"]))
+        if good:
+            ok_n += 1 + 1 + jobs
+        else:
+            bad.append((sc, "trace rejected: main=%s reader=%s" % (main_seq, reader_seq)))
+    return ok_n, bad
+
+
 def not_terminated(M):
-    return lambda S: z3.And(z3.Not(M.terminated(S)), z3.Not(S["panic"]))
+    """a run that is still going (neither terminated, panicked nor deadlocked)"""
+    return lambda S: z3.And(z3.Not(M.terminated(S)), z3.Not(S["panic"]), M.any_enabled(S))
 
 
 def props(run, prop):
@@ -141,7 +232,7 @@ def props(run, prop):
     elif prop == "C08":
         out.append(run.query("no deadlock: in every reachable non-terminated state some thread can move",
                              lambda S: z3.And(z3.Not(M.terminated(S)), z3.Not(S["panic"]), z3.Not(M.any_enabled(S)))))
-        out.append(run.query_final("every run has terminated within the depth bound", not_terminated(M)))
+        out.append(run.query_final("every run has terminated within the depth bound", lambda S: z3.And(z3.Not(M.terminated(S)), z3.Not(S["panic"]))))
     elif prop == "C15":
         out.append(run.query("no panic (unwrap on a closed channel / failed join) in any scenario", lambda S: S["panic"]))
         out.append(run.query("the reader's error is delivered at most once", lambda S: S["nerrdeliv"] > 1))
@@ -161,8 +252,8 @@ def props(run, prop):
 
 CONFIGS = {
     # (queue_len, n_threads, max record sets, depth)
-    "quick": [(1, 1, 1, 30), (1, 2, 2, 40)],
-    "thorough": [(1, 1, 1, 30), (1, 1, 2, 40), (1, 2, 2, 40), (2, 1, 2, 46), (2, 2, 2, 46)],
+    "quick": [(2, 2, 2, 30)],
+    "thorough": [(2, 2, 2, 30), (1, 1, 2, 28), (1, 2, 2, 28), (2, 1, 2, 30), (3, 2, 2, 32)],
 }
 
 
@@ -175,6 +266,7 @@ def main():
     os.makedirs(os.path.join(VERIF, "evidence"), exist_ok=True)
     os.makedirs(os.path.join(VERIF, "replays"), exist_ok=True)
     allq, funcs, states, transitions = [], [], 0, 0
+    validated = 0
     rc = 0
     try:
         mir = dump_mir()
@@ -184,6 +276,11 @@ def main():
             states += run.main.n + run.reader.n + run.job.n
             transitions += run.M.E
             # the depth bound must be sufficient: checked for every property, not only C08
+            nval, badtr = validate_translation(run)
+            validated += nval
+            for sc, why in badtr:
+                print("INCONCLUSIVE: translator validation failed for scenario %s: %s" % (sc, why))
+                rc = max(rc, 2)
             term = run.query_final("depth bound sufficient (no run is still going at the bound)", not_terminated(run.M))
             if term["result"] != "unsat":
                 print("INCONCLUSIVE: depth bound %d not sufficient for config %s" % (D, (QL, NTHR, KMAX)))
@@ -224,28 +321,47 @@ def main():
             print("INCONCLUSIVE: counterexample of the model not reproduced natively (%s): %s" % (rep.get("why", ""), q["query"]))
             rc = max(rc, 2) if rc != 1 else 1
     write_evidence(prop, tier, allq, funcs, states, transitions, time.time() - t0, len([q for q in viol if q.get("native", {}).get("reproduced")]),
-                   [k.get("what", "") for _, k in known_hits])
+                   [k.get("what", "") for _, k in known_hits], validated=validated)
     print("%s tier=%s queries=%d unsat=%d sat=%d wall=%.0fs" % (prop, tier, len(allq), sum(1 for q in allq if q["result"] == "unsat"),
                                                                sum(1 for q in allq if q["result"] == "sat"), time.time() - t0))
     return rc
 
 
-def native_replay(q):
+def native_facts(q, attempts=3):
+    r = native_replay(q, attempts=attempts, raw=True)
+    return r
+
+
+def native_replay(q, attempts=3, raw=False):
     exe = os.path.join(WORK, "e3replay-target", "release", "e3replay")
-    if not os.path.exists(exe):
+    if REPO != "/repo":
+        exe = os.path.join(WORK, "e3replay-alt-target", "release", "e3replay")
+    if not getattr(native_replay, "built", False):
+        native_replay.built = True
         env = dict(os.environ, CARGO_NET_OFFLINE="true")
         env.pop("RUSTFLAGS", None)
-        subprocess.run(["cargo", "build", "--offline", "--release", "--target-dir", os.path.join(WORK, "e3replay-target")],
-                       cwd=os.path.join(HERE, "replayer"), env=env, capture_output=True, text=True)
+        src, tgt = os.path.join(HERE, "replayer"), os.path.join(WORK, "e3replay-target")
+        if REPO != "/repo":
+            # scratch copy of the replayer pointing at the scratch repository
+            src = os.path.join(WORK, "e3replay-alt")
+            shutil.rmtree(src, ignore_errors=True)
+            shutil.copytree(os.path.join(HERE, "replayer"), src)
+            ct = open(os.path.join(src, "Cargo.toml")).read().replace('path = "/repo"', 'path = "%s"' % REPO)
+            open(os.path.join(src, "Cargo.toml"), "w").write(ct)
+            tgt = os.path.join(WORK, "e3replay-alt-target")
+        subprocess.run(["cargo", "build", "--offline", "--release", "--target-dir", tgt],
+                       cwd=src, env=env, capture_output=True, text=True)
     if not os.path.exists(exe):
         return dict(reproduced=False, why="replayer does not build")
     try:
-        p = subprocess.run([exe, json.dumps(dict(config=q["config"], scenario=q["trace"]["scenario"], steps=q["trace"]["steps"], query=q["query"]))],
+        p = subprocess.run([exe, json.dumps(dict(config=q["config"], scenario=q["trace"]["scenario"], steps=q["trace"]["steps"], query=q["query"], attempts=attempts))],
                            capture_output=True, text=True, timeout=120)
         last = [l for l in p.stdout.splitlines() if l.startswith("{")]
         if not last:
             return dict(reproduced=False, why="no output", raw=p.stdout[-500:] + p.stderr[-500:])
         runs = [json.loads(l) for l in last]
+        if raw:
+            return runs[-1]
         for f in runs:
             if observed_violation(q["query"], f, q["trace"]["scenario"]):
                 f["reproduced"] = True
@@ -287,11 +403,11 @@ def observed_violation(query, f, scen):
     return False
 
 
-def write_evidence(prop, tier, allq, funcs, states, transitions, wall, nviol, known, note=""):
+def write_evidence(prop, tier, allq, funcs, states, transitions, wall, nviol, known, note="", validated=0):
     ev = dict(
         property_id=prop, tier=tier, seed=int(os.environ.get("VERIF_SEED", "0") or 0), level="model_checking",
         coverage=dict(
-            states=max(states, 1), transitions=max(transitions, 1), traces_validated_against_impl=0,
+            states=max(states, 1), transitions=max(transitions, 1), traces_validated_against_impl=validated,
             samples=allq[:12] if allq else [note or "no query ran"],
             evaluations=max(len(allq), 1), distinct_nontrivial=sum(1 for q in allq if q["result"] in ("sat", "unsat")),
             rule="states/transitions = control states and edges of the thread automata extracted from the MIR (summed over configurations); "
